@@ -14,6 +14,18 @@
   transposeBranches             the if/elif chain of `utils.music.transpose` that selects the parts to rewrite:
                                 [(class tested, copy.parts | [copy] | [] | arg.parts | [arg] | iter:arg | iter:copy)]
   transposeCopies               `transpose` deep-copies its argument before the chain (copy.deepcopy(<param>))
+  scoreMidiDispatch             the if/elif chain at the head of `save_score_midi` (binding of `parts`)
+  scoreMidiUses / getPpqUses    how `parts` is used afterwards: every use must be `iter_parts(parts)` or `get_ppq(parts)`
+  xmlHead / xmlUses             the head of `save_musicxml` (`if not isinstance(x, Score): x = Score(partlist=x)`) and the
+                                later uses of the (re)bound variable (for-iter | attr:<name>)
+  scoreCtorParts                `self.parts = list(iter_parts(partlist))` of `Score.__init__` -> "list-iter_parts:arg"
+  scoreCtorStructure            the chain that binds `self.part_structure`
+  notearrayDispatch             the if/elif chain of `ensure_notearray`: (class tested, what is RETURNED):
+                                array | part:self | list:attr:<name> | method:note_array | list:self-if-all:<cls> | raise
+  scoreProtocol / performanceProtocol   the bodies of __getitem__ / __setitem__ / __iter__ / __len__ of Score / Performance:
+                                getitem:<attr> | setitem:<attr> | iter:<attr> | len:<attr> (all must delegate to ONE list)
+  sliceSteps                    `slice_notearray_by_time`: how the result is bound in each branch and which arrays are written to
+                                afterwards (see _slice_steps)
 
 A shape that is not recognised is emitted as the token "?" (and listed in `notes`): the theorems that interpret the tables
 (`Props/C20Gen.lean`) then stop building, nothing else does.
@@ -50,7 +62,7 @@ def _isinstance_test(test, var):
                 out.append(n_.attr)
             else:
                 return None
-        return ("not " if neg else "") + "|".join(out)
+        return ("not " if neg else "") + "|".join(sorted(out))   # (the order inside a tuple of classes means nothing)
     return None
 
 
@@ -150,7 +162,9 @@ def extract():
     notes = []
     v = {"scoreLike": [], "performanceLike": [], "seqTypes": [], "sanitizeDefault": None, "numTracksDefault": None,
          "exportDefault": None, "ensureDefault": None, "perfExport": [], "perfCtor": [], "transposeBranches": [],
-         "transposeCopies": False}
+         "transposeCopies": False, "scoreMidi": [], "scoreMidiUses": [], "getPpqUses": [], "xmlHead": [],
+         "xmlUses": [], "scoreCtorParts": "?", "scoreCtorStructure": [], "notearray": [], "sliceBind": [], "sliceWrites": [], "scoreProtocol": [], "performanceProtocol": [],
+         "scoreProtocolExtra": [], "performanceProtocolExtra": []}
     try:
         import partitura.score as S
         import partitura.performance as P
@@ -274,6 +288,247 @@ def extract():
         v["transposeBranches"] = [((t or "?") + ("" if tested == copy_var or t == "else" else "@arg"), rhs(b))
                                   for t, b in _chain(head[0], tested)]
 
+
+    def _uses(fnode, name, skip=()):
+        """how the variable `name` is READ in a function body (statements in `skip` excluded): a token per occurrence"""
+        parents = {}
+        for st in fnode.body:
+            if st in skip:
+                continue
+            for n_ in ast.walk(st):
+                for c in ast.iter_child_nodes(n_):
+                    parents[c] = n_
+        out = []
+        for n_, par in parents.items():
+            if isinstance(n_, ast.Name) and n_.id == name and isinstance(n_.ctx, ast.Load):
+                if isinstance(par, ast.Call) and n_ in par.args:
+                    fn_ = par.func
+                    out.append(fn_.attr if isinstance(fn_, ast.Attribute) else getattr(fn_, "id", "?"))
+                elif isinstance(par, ast.For) and par.iter is n_:
+                    out.append("for-iter")
+                elif isinstance(par, ast.comprehension) and par.iter is n_:
+                    out.append("for-iter")
+                elif isinstance(par, ast.Attribute):
+                    out.append("attr:" + par.attr)
+                else:
+                    out.append("?")
+        return sorted(out)
+
+    def score_midi():
+        f = _func_ast(exportmidi.save_score_midi)
+        var = f.args.args[0].arg
+        head = [st for st in f.body if isinstance(st, ast.If) and _isinstance_test(st.test, var) is not None]
+        if len(head) != 1:
+            notes.append("save_score_midi: dispatch not found")
+            v["scoreMidi"] = [("?", "?")]
+            return
+        tgt = None
+        for st in head[0].body:
+            if isinstance(st, ast.Assign) and isinstance(st.targets[0], ast.Name):
+                tgt = st.targets[0].id
+        is_t = lambda t: isinstance(t, ast.Name) and t.id == tgt
+        v["scoreMidi"] = [(t, _bind_token(b, var, is_t)) for t, b in _chain(head[0], var)]
+        v["scoreMidiUses"] = _uses(f, tgt, skip=(head[0],)) + ["arg:" + u for u in _uses(f, var, skip=(head[0],))]
+        g = _func_ast(exportmidi.get_ppq)
+        v["getPpqUses"] = _uses(g, g.args.args[0].arg)
+
+    def xml_head():
+        from partitura.io import exportmusicxml
+        f = _func_ast(exportmusicxml.save_musicxml)
+        var = f.args.args[0].arg
+        head = [st for st in f.body if isinstance(st, ast.If) and _isinstance_test(st.test, var) is not None]
+        if len(head) != 1:
+            notes.append("save_musicxml: head not found")
+            v["xmlHead"] = [("?", "?")]
+            return
+        out = []
+        for t, b in _chain(head[0], var):
+            tok = "?"
+            if len(b) == 1 and isinstance(b[0], ast.Assign) and isinstance(b[0].targets[0], ast.Name) and b[0].targets[0].id == var:
+                c = b[0].value
+                if isinstance(c, ast.Call):
+                    nm = c.func.attr if isinstance(c.func, ast.Attribute) else getattr(c.func, "id", "")
+                    a0 = [a for a in c.args[:1]] + [k.value for k in c.keywords if k.arg == "partlist"]
+                    if nm == "Score" and len(a0) == 1 and isinstance(a0[0], ast.Name) and a0[0].id == var:
+                        tok = "ctor:Score"
+            out.append((t, tok))
+        v["xmlHead"] = out
+        v["xmlUses"] = _uses(f, var, skip=(head[0],))
+
+    def score_ctor():
+        f = _func_ast(S.Score.__init__)
+        var = f.args.args[1].arg
+        for st in f.body:
+            if (isinstance(st, ast.Assign) and isinstance(st.targets[0], ast.Attribute) and st.targets[0].attr == "parts"):
+                x = st.value
+                if (isinstance(x, ast.Call) and isinstance(x.func, ast.Name) and x.func.id == "list" and len(x.args) == 1
+                        and isinstance(x.args[0], ast.Call) and getattr(x.args[0].func, "id", getattr(x.args[0].func, "attr", "")) == "iter_parts"
+                        and len(x.args[0].args) == 1 and isinstance(x.args[0].args[0], ast.Name) and x.args[0].args[0].id == var):
+                    v["scoreCtorParts"] = "list-iter_parts:arg"
+        head = [st for st in f.body if isinstance(st, ast.If) and _isinstance_test(st.test, var) is not None]
+        if len(head) != 1:
+            notes.append("Score.__init__: dispatch not found")
+            v["scoreCtorStructure"] = [("?", "?")]
+            return
+        is_t = lambda t: isinstance(t, ast.Attribute) and t.attr == "part_structure"
+        v["scoreCtorStructure"] = [(t, _bind_token(b, var, is_t)) for t, b in _chain(head[0], var)]
+
+    def _ret_token(body, var):
+        """what a branch of ensure_notearray returns"""
+        def call_tok(x):
+            if isinstance(x, ast.Name) and x.id == var:
+                return "array"
+            if not isinstance(x, ast.Call):
+                return "?"
+            fn_ = x.func
+            if isinstance(fn_, ast.Attribute) and isinstance(fn_.value, ast.Name) and fn_.value.id == var:
+                return "method:" + fn_.attr
+            nm = getattr(fn_, "id", getattr(fn_, "attr", "?"))
+            a0 = x.args[0] if x.args else None
+            what = None
+            if isinstance(a0, ast.Name) and a0.id == var:
+                what = "self"
+            elif isinstance(a0, ast.Attribute) and isinstance(a0.value, ast.Name) and a0.value.id == var:
+                what = "attr:" + a0.attr
+            if what is None:
+                return "?"
+            if nm == "note_array_from_part":
+                return "part:" + what
+            if nm == "note_array_from_part_list":
+                return "list:" + what
+            return "?"
+        for st in body:
+            if isinstance(st, ast.Return):
+                return call_tok(st.value)
+            if isinstance(st, ast.Raise):
+                return "raise"
+            if isinstance(st, ast.If):
+                # `if <guard>: return … else: raise`
+                t = st.test
+                els_raises = any(isinstance(x, ast.Raise) for x in st.orelse)
+                inner = _ret_token(st.body, var)
+                if not els_raises:
+                    return "?"
+                if (isinstance(t, ast.Call) and isinstance(t.func, ast.Name) and t.func.id == "all" and t.args
+                        and isinstance(t.args[0], (ast.ListComp, ast.GeneratorExp))):
+                    e = t.args[0].elt
+                    g = t.args[0].generators[0]
+                    if (isinstance(e, ast.Call) and getattr(e.func, "id", "") == "isinstance" and isinstance(e.args[1], ast.Name)
+                            and isinstance(g.iter, ast.Name) and g.iter.id == var):
+                        return inner + "-if-all:" + e.args[1].id
+                    return "?"
+                return inner   # a guard on the array itself (structured dtype): irrelevant for score-like arguments
+        return "?"
+
+    def notearray():
+        f = _func_ast(M.ensure_notearray)
+        var = f.args.args[0].arg
+        head = [st for st in f.body if isinstance(st, ast.If) and _isinstance_test(st.test, var) is not None]
+        if len(head) != 1:
+            notes.append("ensure_notearray: dispatch not found")
+            v["notearray"] = [("?", "?")]
+            return
+        v["notearray"] = [(t, _ret_token(b, var)) for t, b in _chain(head[0], var)]
+
+
+    def slice_steps():
+        f = _func_ast(M.slice_notearray_by_time)
+        var = f.args.args[0].arg
+        # the index variable: assigned from np.array(...) (an integer ARRAY: indexing with it copies)
+        idx_arrays = set()
+        for n_ in ast.walk(f):
+            if (isinstance(n_, ast.Assign) and isinstance(n_.targets[0], ast.Name) and isinstance(n_.value, ast.Call)
+                    and getattr(n_.value.func, "attr", getattr(n_.value.func, "id", "")) == "array"):
+                idx_arrays.add(n_.targets[0].id)
+        res_var, table = None, []
+
+        def val_tok(x):
+            if isinstance(x, ast.Call) and getattr(x.func, "attr", getattr(x.func, "id", "")) == "empty":
+                return "np.empty"
+            if isinstance(x, ast.Name) and x.id == var:
+                return "alias:arg"
+            if isinstance(x, ast.Subscript) and isinstance(x.value, ast.Name) and x.value.id == var:
+                if isinstance(x.slice, ast.Name) and x.slice.id in idx_arrays:
+                    return "fancy:arg"
+                if isinstance(x.slice, ast.Slice):
+                    return "view:arg"
+            return "?"
+
+        def test_tok(t):
+            if (isinstance(t, ast.Compare) and len(t.ops) == 1 and isinstance(t.ops[0], ast.Eq) and isinstance(t.left, ast.Call)
+                    and getattr(t.left.func, "id", "") == "len" and isinstance(t.left.args[0], ast.Name)
+                    and t.left.args[0].id in idx_arrays and isinstance(t.comparators[0], ast.Constant) and t.comparators[0].value == 0):
+                return "empty-index"
+            return "?"
+
+        for st in f.body:
+            if isinstance(st, ast.If) and len(st.body) == 1 and len(st.orelse) == 1 and all(
+                    isinstance(b, ast.Assign) and isinstance(b.targets[0], ast.Name) for b in (st.body[0], st.orelse[0])):
+                if st.body[0].targets[0].id == st.orelse[0].targets[0].id:
+                    res_var = st.body[0].targets[0].id
+                    table = [(test_tok(st.test), val_tok(st.body[0].value)), ("else", val_tok(st.orelse[0].value))]
+        if res_var is None:
+            # a single unconditional binding, or a shape this reader does not know
+            for st in f.body:
+                if isinstance(st, ast.Assign) and isinstance(st.targets[0], ast.Name) and val_tok(st.value) != "?":
+                    res_var = st.targets[0].id
+                    table.append(("always", val_tok(st.value)))
+            ret = [st for st in f.body if isinstance(st, ast.Return)]
+            if not table or not ret or not isinstance(ret[-1].value, ast.Name) or ret[-1].value.id != res_var:
+                table = [("?", "?")]
+        v["sliceBind"] = table
+        writes = []
+        for n_ in ast.walk(f):
+            tg = []
+            if isinstance(n_, ast.Assign):
+                tg = n_.targets
+            elif isinstance(n_, ast.AugAssign):
+                tg = [n_.target]
+            for t in tg:
+                if isinstance(t, ast.Subscript):
+                    base = t.value
+                    while isinstance(base, ast.Subscript):
+                        base = base.value
+                    nm = base.id if isinstance(base, ast.Name) else "?"
+                    writes.append("result" if nm == res_var else ("arg" if nm == var else "other:" + nm))
+            if (isinstance(n_, ast.Call) and isinstance(n_.func, ast.Attribute) and isinstance(n_.func.value, ast.Name)
+                    and n_.func.value.id == var and n_.func.attr in ("sort", "fill", "put", "resize", "setfield", "itemset",
+                                                                    "partition", "byteswap", "setflags")):
+                writes.append("arg." + n_.func.attr)
+        v["sliceWrites"] = sorted(writes)
+
+
+    def protocol():
+        """the bodies of the container methods of Score / Performance: which attribute each delegates to"""
+        def method_tok(cls, name):
+            fn = cls.__dict__.get(name)
+            if fn is None:
+                return "absent"
+            f = _func_ast(fn)
+            body = [st for st in f.body if not (isinstance(st, ast.Expr) and isinstance(st.value, ast.Constant))]
+            if len(body) != 1:
+                return "?"
+            st = body[0]
+            me = f.args.args[0].arg
+            is_attr = lambda x: isinstance(x, ast.Attribute) and isinstance(x.value, ast.Name) and x.value.id == me
+            if name == "__getitem__" and isinstance(st, ast.Return) and isinstance(st.value, ast.Subscript) \
+                    and is_attr(st.value.value) and isinstance(st.value.slice, ast.Name) and st.value.slice.id == f.args.args[1].arg:
+                return "getitem:" + st.value.value.attr
+            if name == "__setitem__" and isinstance(st, ast.Assign) and isinstance(st.targets[0], ast.Subscript) \
+                    and is_attr(st.targets[0].value) and isinstance(st.targets[0].slice, ast.Name) \
+                    and st.targets[0].slice.id == f.args.args[1].arg and isinstance(st.value, ast.Name) and st.value.id == f.args.args[2].arg:
+                return "setitem:" + st.targets[0].value.attr
+            if name in ("__iter__", "__len__") and isinstance(st, ast.Return) and isinstance(st.value, ast.Call) \
+                    and isinstance(st.value.func, ast.Name) and st.value.func.id == name.strip("_") and len(st.value.args) == 1 \
+                    and is_attr(st.value.args[0]):
+                return name.strip("_") + ":" + st.value.args[0].attr
+            return "?"
+
+        for key, cls in (("scoreProtocol", S.Score), ("performanceProtocol", P.Performance)):
+            v[key] = [(m, method_tok(cls, m)) for m in ("__getitem__", "__setitem__", "__iter__", "__len__")]
+            v[key + "Extra"] = sorted(m for m in ("__contains__", "__reversed__", "__delitem__", "index", "count", "__getattr__")
+                                      if any(m in k.__dict__ for k in cls.__mro__[:-1]))
+
     guarded("typing unions", unions)
     guarded("iter_parts", seqtypes)
     guarded("sanitize_track_numbers", lambda: single_default(P.Performance.sanitize_track_numbers, "sanitizeDefault", "sanitize_track_numbers"))
@@ -283,6 +538,12 @@ def extract():
     guarded("save_performance_midi dispatch", perf_export)
     guarded("Performance.__init__ dispatch", perf_ctor)
     guarded("transpose", transpose)
+    guarded("save_score_midi dispatch", score_midi)
+    guarded("save_musicxml head", xml_head)
+    guarded("Score.__init__", score_ctor)
+    guarded("ensure_notearray dispatch", notearray)
+    guarded("slice_notearray_by_time", slice_steps)
+    guarded("container protocol", protocol)
     return v, notes
 
 
@@ -314,6 +575,28 @@ def gen_c20():
     w("def transposeBranches : List (String × String) := %s" % pairs(v["transposeBranches"]))
     w("/-- `new_score = copy.deepcopy(score)` precedes the table -/")
     w("def transposeCopies : Bool := %s" % ("true" if v["transposeCopies"] else "false"))
+    w("/-- the argument dispatch of `save_score_midi`: (class tested, binding of `parts`) -/")
+    w("def scoreMidiDispatch : List (String × String) := %s" % pairs(v["scoreMidi"]))
+    w("/-- every later use of `parts` (and `arg:` of the argument itself) in `save_score_midi`; of its parameter in `get_ppq` -/")
+    w("def scoreMidiUses : List String := %s" % strs(v["scoreMidiUses"]))
+    w("def getPpqUses : List String := %s" % strs(v["getPpqUses"]))
+    w("/-- the head of `save_musicxml` and the later uses of the variable it rebinds -/")
+    w("def xmlHead : List (String × String) := %s" % pairs(v["xmlHead"]))
+    w("def xmlUses : List String := %s" % strs(v["xmlUses"]))
+    w("/-- `Score.__init__`: the binding of `self.parts` and the chain that binds `self.part_structure` -/")
+    w("def scoreCtorParts : String := %s" % _lstr(v["scoreCtorParts"]))
+    w("def scoreCtorStructure : List (String × String) := %s" % pairs(v["scoreCtorStructure"]))
+    w("/-- the dispatch of `ensure_notearray`: (class tested, what is returned) -/")
+    w("def notearrayDispatch : List (String × String) := %s" % pairs(v["notearray"]))
+    w("/-- `slice_notearray_by_time`: how the result is bound (test, value) and the base of every subscript-store -/")
+    w("def sliceBind : List (String × String) := %s" % pairs(v["sliceBind"]))
+    w("def sliceWrites : List String := %s" % strs(v["sliceWrites"]))
+    w("/-- the container methods of Score / Performance: (method, what its body delegates to); and which of the optional")
+    w("    sequence methods (__contains__, __reversed__, __delitem__, index, count, __getattr__) the classes define -/")
+    w("def scoreProtocol : List (String × String) := %s" % pairs(v["scoreProtocol"]))
+    w("def scoreProtocolExtra : List String := %s" % strs(v["scoreProtocolExtra"]))
+    w("def performanceProtocol : List (String × String) := %s" % pairs(v["performanceProtocol"]))
+    w("def performanceProtocolExtra : List String := %s" % strs(v["performanceProtocolExtra"]))
     w("")
     w("def extractionOk : Bool := %s" % ("true" if not notes else "false"))
     w("def notes : List String := %s" % strs(notes))
